@@ -16,6 +16,7 @@ Table rows:
    real   : slots that are real-valued by definition (norms, errors, singular values, metrics)
    exempt : {slot: reason} documented exceptions
 """
+import os
 import random
 import numpy as np
 from harness import common as C
@@ -431,6 +432,47 @@ def table(tier="quick"):
     add("class_TensorTrain_Ring", "tensorly.decomposition.TensorTrain", lambda d: (lambda X=d.arr(*SH): (dec.TensorTrain([1, 2, 2, 1]).fit_transform(X), dec.TensorRing([2, 2, 2, 2]).fit_transform(X))), fam="FSvdChain", dts=ALL3)
     add("class_Parafac2", "tensorly.decomposition.Parafac2", lambda d: (lambda sl=slices(d): dec.Parafac2(R, n_iter_max=2, random_state=1, return_errors=True).fit_transform(sl)), fam="FParafac2", opts=dict(init="IRandom"))
     add("class_CPPower", "tensorly.decomposition.CPPower", lambda d: (lambda X=d.arr(*SH): dec.CPPower(R, n_repeat=2, n_iteration=2).fit_transform(X)), fam="FPower")
+    # the SAME estimator object fitted twice, first with data of the OTHER precision: state kept on the instance (decomposition_, weight_tensor_, X_factors ...)
+    # must not reach the results of the second fit (history independence for instance state; the module-level kinds are covered by harness/props/C18_hist.py)
+    def other(d):
+        return D({"float32": "float64", "float64": "float32", "complex64": "complex128", "complex128": "complex64"}[str(d.dt)], 1)
+
+    def twice(m, first, second):
+        first(m)
+        return second(m)
+    add("class_CP_refit", "tensorly.decomposition.CP",
+        lambda d: (lambda X=d.arr(*SH), X0=other(d).arr(*SH): twice(dec.CP(R, n_iter_max=2, init="random", random_state=1), lambda m: m.fit_transform(X0), lambda m: m.fit_transform(X))),
+        fam="FParafac", opts=dict(init="IRandom"), dts=ALL3)
+    add("class_Tucker_refit", "tensorly.decomposition.Tucker",
+        lambda d: (lambda X=d.arr(*SH), X0=other(d).arr(*SH): twice(dec.Tucker(RK, n_iter_max=2), lambda m: m.fit_transform(X0), lambda m: m.fit_transform(X))),
+        fam="FTucker", opts=dict(init="ISvd"), dts=ALL3)
+    add("class_CP_NN_HALS_refit", "tensorly.decomposition.CP_NN_HALS",
+        lambda d: (lambda X=d.arr(*SH), X0=other(d).arr(*SH): twice(dec.CP_NN_HALS(R, n_iter_max=2, init="random", random_state=1), lambda m: m.fit_transform(X0), lambda m: m.fit_transform(X))),
+        fam="FNNParafacHals", opts=dict(init="IRandom"))
+    add("class_ConstrainedCP_refit", "tensorly.decomposition.ConstrainedCP",
+        lambda d: (lambda X=d.arr(*SH), X0=other(d).arr(*SH): twice(dec.ConstrainedCP(R, n_iter_max=2, init="random", random_state=1, smoothness=0.1), lambda m: m.fit_transform(X0), lambda m: m.fit_transform(X))),
+        fam="FConstrained", opts=dict(init="IRandom", prox="smooth"))
+    add("class_TensorTrain_Ring_refit", "tensorly.decomposition.TensorTrain",
+        lambda d: (lambda X=d.arr(*SH), X0=other(d).arr(*SH): (twice(dec.TensorTrain([1, 2, 2, 1]), lambda m: m.fit_transform(X0), lambda m: m.fit_transform(X)),
+                                                               twice(dec.TensorRing([2, 2, 2, 2]), lambda m: m.fit_transform(X0), lambda m: m.fit_transform(X)))),
+        fam="FSvdChain", dts=ALL3)
+    add("class_Parafac2_refit", "tensorly.decomposition.Parafac2",
+        lambda d: (lambda sl=slices(d), sl0=slices(other(d)): twice(dec.Parafac2(R, n_iter_max=2, random_state=1, return_errors=True), lambda m: m.fit_transform(sl0), lambda m: m.fit_transform(sl))),
+        fam="FParafac2", opts=dict(init="IRandom"))
+    add("class_CPPower_refit", "tensorly.decomposition.CPPower",
+        lambda d: (lambda X=d.arr(*SH), X0=other(d).arr(*SH): twice(dec.CPPower(R, n_repeat=2, n_iteration=2), lambda m: m.fit_transform(X0), lambda m: m.fit_transform(X))), fam="FPower")
+    add("cp_regressor_refit", "tensorly.regression.CPRegressor",
+        lambda d: (lambda X=d.arr(6, 3, 4), y=d.arr(6), X0=other(d).arr(6, 3, 4), y0=other(d).arr(6):
+                   twice(CPRegressor(2, random_state=1, verbose=0, n_iter_max=3), lambda m: m.fit(X0, y0), lambda m: (m.fit(X, y).predict(X), m.weight_tensor_, m.cp_weight_, m.vec_W_))),
+        fam="FCpReg")
+    add("tucker_regressor_refit", "tensorly.regression.TuckerRegressor",
+        lambda d: (lambda X=d.arr(6, 3, 4), y=d.arr(6), X0=other(d).arr(6, 3, 4), y0=other(d).arr(6):
+                   twice(TuckerRegressor([2, 2], random_state=1, verbose=0, n_iter_max=3), lambda m: m.fit(X0, y0), lambda m: (m.fit(X, y).predict(X), m.weight_tensor_, m.tucker_weight_, m.vec_W_))),
+        fam="FTuckerReg", opts=dict(alt=True))
+    add("cp_plsr_refit", "tensorly.regression.cp_plsr.CP_PLSR",
+        lambda d: (lambda X=d.arr(6, 3, 4), Y=d.arr(6, 2), X0=other(d).arr(6, 3, 4), Y0=other(d).arr(6, 2):
+                   twice(CP_PLSR(2, random_state=1), lambda m: m.fit(X0, Y0), lambda m: (m.fit(X, Y).predict(X), m.transform(X, Y), m.X_factors, m.Y_factors, m.coef_))),
+        fam="FPlsr")
     add("tensor_train_OI", "tensorly.contrib.decomposition.tensor_train_OI", lambda d: (lambda X=d.arr(*SH): (tensor_train_OI(X, [1, 2, 2, 1], n_iter=1, return_errors=True), tensor_train_OI(X, [1, 2, 2, 1], n_iter=2, trajectory=True, return_errors=False))), fam="FSvdChain")
     add("tensor_ring_als_sampled_uniform", "tensorly.decomposition.tensor_ring_als_sampled",
         lambda d: (lambda X=d.arr(*SH): dec.tensor_ring_als_sampled(X, [2, 2, 2, 2], n_samples=10, n_iter_max=3, random_state=1, uniform_sampling=True)), fam="FTrAlsSampled", opts=dict(alt=True))
@@ -804,6 +846,7 @@ PARTIAL_EXACT = {"lstsq": [True, False], "svd": [True, False, True], "truncated_
                  "symeig_svd": [True, False, True], "eigh": [False, True], "svd_fun": [True, False, True]}
 EXACT_CALLEES_DEFAULT = {}   # the same under the assumption that the callee (and its callees) run with their boolean / string options at the DEFAULT values
 CALLEE_FLAGS = {}            # bare name -> {"flags": {option: default}, "first": position of the first such option among the parameters}
+MODULE_OBJECTS = {}     # module path -> names bound at module level to a mutable container / the result of a call (a singleton): PERSISTENT state, filled by extract_functions
 EXACT_CALLEES = {}      # bare name of a library function -> True (every array output exact) | [bool per tuple position]; loaded from the baseline
 
 
@@ -915,6 +958,21 @@ class Translator:
         self.consts = {}         # loop counters with a statically known position: name -> "first" (== 0) | "later" (>= 1)
         self.retinfo = {}        # return variable -> (line of the return statement, position in the returned tuple, length of the tuple)
         self.arrayvars = set()   # names bound to an ndarray (allocation, element-wise result, slice of one): `x op= v` on them is IN PLACE
+        # PERSISTENT state (Model/DtypeHist.v): module-level containers / singletons of the function's module and names declared `global` / `nonlocal`.
+        # A read of such a name before the function has assigned it is a read of the variable "$persist.<name>", which no statement of the program
+        # assigns: its value is whatever an EARLIER call left there (unknown to the program checks, so nothing computed from it is certified), and the
+        # program does not pass hist_free for G = the $persist variables (case CHist)
+        q = qual
+        self.persist = set()
+        while "." in q:
+            q = q.rsplit(".", 1)[0]
+            if q in MODULE_OBJECTS:
+                self.persist = set(MODULE_OBJECTS[q]); break
+        for node in ast.walk(fn):
+            if isinstance(node, (ast.Global, ast.Nonlocal)):
+                self.persist.update(node.names)
+        a_ = fn.args
+        self.persist -= {x.arg for x in a_.posonlyargs + a_.args + a_.kwonlyargs}
 
     # ---- helpers
     def fresh(self, base, node=None, extra=""):
@@ -930,6 +988,8 @@ class Translator:
             return ("var", self.rename[name])
         if name in self.defined:
             return ("var", name)
+        if name in self.persist:
+            return ("var", "$persist." + name)
         return None
 
     def wr(self, name, e):
@@ -1169,7 +1229,7 @@ class Translator:
             self.ex(n.func); A = None
         else:
             A = d[-1]
-            if len(d) > 1 and d[0] not in MODULES and (d[0] in self.defined or d[0] in self.subst or (self.rename and d[0] in self.rename) or d[0] == "self"):
+            if len(d) > 1 and d[0] not in MODULES and (d[0] in self.defined or d[0] in self.subst or (self.rename and d[0] in self.rename) or d[0] == "self" or d[0] in self.persist):
                 base_expr = self.ex(n.func.value)
         args = [self.ex(a) for a in n.args]
         kws = {kw.arg: self.ex(kw.value) for kw in n.keywords if kw.arg is not None and kw.arg != "dtype"}
@@ -1839,7 +1899,8 @@ def translate(fn_node, qual, defaults_mode=False, flag_override=None):
     gi = "[" + "; ".join(f"({vid(n)}, {gallina(e, vid)})" for n, e in init) + "]"
     gl = "[" + "; ".join(f"({vid(n)}, {gallina(e, vid)})" for n, e in loop) + "]"
     go = "[" + "; ".join(f'("*", (Var {vid(r)}))' for r in rets) + "]"
-    return dict(qual=qual, prog=f"(mkprog {gi} {gl} {go})", n_init=len(init), n_loop=len(loop), n_out=len(rets), n_vars=len(ids), notes=tr.notes,
+    persist = {n[len("$persist."):]: k for n, k in ids.items() if n.startswith("$persist.")}
+    return dict(qual=qual, persist=persist, prog=f"(mkprog {gi} {gl} {go})", n_init=len(init), n_loop=len(loop), n_out=len(rets), n_vars=len(ids), notes=tr.notes,
                 retinfo=[tr.retinfo.get(r) for r in rets], flags=dict(tr.flags), first_flag=tr.first_flag, params=[a.arg for a in fn_node.args.posonlyargs + fn_node.args.args],
                 leaves=sorted({x for _, e in init + loop for x in leaves_of(e)}))
 
@@ -1861,6 +1922,24 @@ EXTRACT_SKIP_FILES = ("testing.py", "conftest.py", "_factorized_tensor.py", "bas
 EXTRACT_BASELINE = "_extracted_levels.json"
 
 
+def module_objects(tree):
+    """names bound at module level to a mutable container (dict / list / set display or constructor) or to the result of a call (a singleton object):
+    what a function of the module can use to hand a value from one call to the next"""
+    from harness.props import C18_hist as H
+    out, defined = set(), set()
+    for n in tree.body:
+        if isinstance(n, (ast.FunctionDef, ast.AsyncFunctionDef, ast.ClassDef)):
+            defined.add(n.name)
+        tg, val = [], None
+        if isinstance(n, ast.Assign):
+            tg, val = n.targets, n.value
+        elif isinstance(n, ast.AnnAssign) and n.value is not None:
+            tg, val = [n.target], n.value
+        if val is not None and (H._is_mutable_value(val) or isinstance(val, ast.Call)):
+            out.update(t.id for t in tg if isinstance(t, ast.Name))
+    return out - defined
+
+
 def extract_functions(repo):
     """(qualified name, ast.FunctionDef) for every module-level function and every method of the library (backend: core.py only)"""
     import os
@@ -1880,6 +1959,7 @@ def extract_functions(repo):
             except SyntaxError:
                 continue
             mod = os.path.relpath(pth, repo)[:-3].replace(os.sep, ".")
+            MODULE_OBJECTS[mod] = module_objects(tree)
             for node in tree.body:
                 if isinstance(node, ast.FunctionDef):
                     yield mod + "." + node.name, node
@@ -2121,6 +2201,121 @@ def write_extract_baseline(repo=None):
               open(os.path.join(C.VERIF, "corpus", "C18", EXTRACT_BASELINE), "w"), indent=1, sort_keys=True)
     return levels, errors, exact, exact_d
 
+# ---- canaries of the history-independence instruments (translator + hist_free, static scanner)
+CANARY_SRC = """
+_CACHE = {}
+_SEEN = []
+
+
+def cached_solver(tensor, regularizer):
+    key = (tl.shape(tensor)[0], regularizer)
+    M = _CACHE.get(key)
+    if M is None:
+        M = tl.tensor(tl.diag(2 * regularizer * tl.ones(tl.shape(tensor)[0]) + 1), **tl.context(tensor))
+        _CACHE[key] = M
+    return tl.solve(M, tensor)
+
+
+def cast_cached_solver(tensor, regularizer):
+    key = (tl.shape(tensor)[0], regularizer)
+    M = tl.tensor(_CACHE[key], **tl.context(tensor))      # a module-level table (filled elsewhere) read through a cast into the context of the data
+    return tl.solve(M, tensor)
+
+
+def fresh_solver(tensor, regularizer):
+    M = tl.tensor(tl.diag(2 * regularizer * tl.ones(tl.shape(tensor)[0]) + 1), **tl.context(tensor))
+    return tl.solve(M, tensor)
+
+
+def last_scale(tensor):
+    global _LAST_SCALE
+    out = tensor * _LAST_SCALE
+    _LAST_SCALE = tl.norm(tensor)
+    return out
+
+
+@functools.lru_cache(maxsize=None)
+def memo_eye(n):
+    return tl.eye(n)
+
+
+def attr_cached(tensor):
+    if not hasattr(attr_cached, "buf"):
+        attr_cached.buf = tl.zeros(tl.shape(tensor), **tl.context(tensor))
+    return attr_cached.buf + tensor
+
+
+def default_cached(tensor, _memo={}):
+    if "m" not in _memo:
+        _memo["m"] = tl.copy(tensor)
+    return _memo["m"] * tensor
+
+
+def remember(tensor):
+    _SEEN.append(tensor)
+    return tensor
+
+
+def make_counter():
+    hits = []
+
+    def bump(x):
+        hits.append(x)
+        return len(hits)
+    return bump
+
+
+def local_only(tensor):
+    acc = []
+
+    def push(x):
+        acc.append(x)
+    push(tensor)
+    return acc[0]
+
+
+class Est:
+    _shared = {}
+
+    def fit(self, X):
+        self._shared["X"] = X
+        self.X_ = X
+        return self
+"""
+CANARY_SCAN_EXPECTED = {("cached_solver", "module-state-store"), ("last_scale", "global"),
+                        ("memo_eye", "cache-decorator"), ("attr_cached", "module-state-store"), ("default_cached", "mutable-default-store"),
+                        ("remember", "module-state-mutation"), ("make_counter.<locals>.bump", "closure-mutation"), ("Est.fit", "class-level-mutable-store")}
+
+
+def history_canaries():
+    """([(name, translation, hist_free expected)], [error strings]): the translator must give the dtype-oblivious caches a persistent variable, the static
+    scanner must flag exactly the stateful canary functions (and not fresh_solver / local_only / the instance attribute of Est.fit)"""
+    from harness.props import C18_hist as H
+    errs, out = [], []
+    tree = ast.parse(CANARY_SRC)
+    MODULE_OBJECTS["<canary>"] = module_objects(tree) | {"_LAST_SCALE"}
+    want = {"cached_solver": False, "cast_cached_solver": True, "last_scale": False, "fresh_solver": None}
+    for node in tree.body:
+        if isinstance(node, ast.FunctionDef) and node.name in want:
+            try:
+                r = translate(node, "<canary>." + node.name)
+            except Exception as e:  # noqa
+                errs.append(f"canary {node.name} is not translatable: {type(e).__name__}: {e}")
+                continue
+            if want[node.name] is None:
+                if r["persist"]:
+                    errs.append(f"canary {node.name} has no persistent state but was translated with persistent variables {sorted(r['persist'])}")
+            elif not r["persist"]:
+                errs.append(f"canary {node.name} uses a module-level cache but was translated without a persistent variable")
+            else:
+                out.append((node.name, r, want[node.name]))
+    hits = H.scan_source(CANARY_SRC, "<canary>")
+    got = {(h["function"].split("<canary>.", 1)[1], h["kind"]) for h in hits}
+    if got != CANARY_SCAN_EXPECTED:
+        errs.append(f"static persistent-state scanner on the canary module: missing {sorted(CANARY_SCAN_EXPECTED - got)}, unexpected {sorted(got - CANARY_SCAN_EXPECTED)}")
+    return out, errs
+
+
 # ---- self-test of the translator: random straight-line functions, executed for real and translated
 TR_TEMPLATES = [
     "{v} = tl.zeros((3,), **tl.context({a}))", "{v} = tl.zeros((3,))", "{v} = tl.ones((3,), **tl.context({a}))", "{v} = tl.ones(3)",
@@ -2318,6 +2513,7 @@ def run_config(t, data_dt, seed=0, verbose_capture=False):
     import io, contextlib
     d = D(data_dt, seed)
     C.reset_backends()
+    np.random.seed(977 + seed)     # a few library functions draw from the global NumPy generator: the same call sees the same draws in every process / call order
     thunk = t["build"](d)
     info = {}
     defaults = thunk.__defaults__ or ()
@@ -2438,7 +2634,8 @@ COMPLEX_ALSO = {
     "random_tensor", "leverage", "compress", "svd_mask_plain_same", "svd_mask_plain_bool", "partial_tucker_mask_bool", "partial_tucker_mask_int",
     "parafac_mask_bool_linesearch", "class_CP_mask_bool", "class_ConstrainedCP", "class_CPPower", "tensor_ring_als_sampled_uniform",
     "tensor_ring_als_ls_solve", "parafac2_conversions", "parafac2_normalise_no_weights", "higher_order_moment_einsum", "cp_regressor_matrix_y",
-    "tucker_regressor_reg", "cp_plsr_vector_y", "reflective_correlation", "backend_randn_gamma"}
+    "tucker_regressor_reg", "cp_plsr_vector_y", "reflective_correlation", "backend_randn_gamma",
+    "class_ConstrainedCP_refit", "class_CPPower_refit", "cp_regressor_refit", "tucker_regressor_refit", "cp_plsr_refit"}
 
 
 def dtypes_for(t, tier):
@@ -2454,6 +2651,10 @@ def dtypes_for(t, tier):
 
 def run(chk):
     rng = random.Random(chk.seed)
+    from harness.props import C18_hist as H
+    # history independence (a): fresh processes run the whole table with the data dtypes in another order (float64 first, complex128 first); started now,
+    # they run beside this process and are judged after its own (float32-first) pass
+    hist_passes = H.start_passes(chk.tier, chk.seed) if os.environ.get("VERIF_C18_NO_HISTORY") != "1" else {}
     set_exact_callees(load_extract_baseline("exact_callees"), load_extract_baseline("exact_callees_default"), load_extract_baseline("callee_flags"))
     chk.build_proofs()
     C.reset_backends()
@@ -2473,8 +2674,12 @@ def run(chk):
     chk.hist("stream", "promotion-table entries")
     # ---- 2. entry points
     T = table(chk.tier)
+    # history independence (b): fingerprint of everything in the loaded library that can carry a value from one call to the next, before any call
+    H.import_all()
+    state_before = H.snapshot_state()
+    parent_obs = {}
     # ---- 2a. corpus of past findings / disagreements (minimised regression inputs) runs first
-    import glob, json, os
+    import glob, json
     byname = {t["name"]: t for t in T}
     for fn in sorted(glob.glob(os.path.join(C.VERIF, "corpus", "C18", "*.json"))):
         if os.path.basename(fn).startswith("_"):
@@ -2519,6 +2724,8 @@ def run(chk):
                 chk.count(key=key, nontrivial=True)
                 chk.hist("family", t["fam"]); chk.hist("data dtype", data_dt); chk.hist("mask", str(t["mask"]))
                 chk.hist("outcome", st)
+                if seed == 0:
+                    parent_obs[(t["name"], data_dt)] = (st, obs)
                 inputs = {"config": t["name"], "dtype": data_dt, "seed": seed, "mask_dtype": mask_dt, "arg_dtypes": info.get("arg_dtypes")}
                 if t.get("lenient"):
                     inputs["random_rows"] = [chk.seed, n_rand]
@@ -2555,6 +2762,23 @@ def run(chk):
                     ol = "[" + "; ".join(f'("{model_slot(t, s)}", {("Some " + COQ_DT[dt]) if dt in COQ_DT else "None"})' for s, dt in obs) + "]"
                     cases.append(f"(CEp {cid}%nat {cfg_lit(t)} {COQ_DT[data_dt]} {COQ_DT[mask_dt or data_dt]} {int(t['n'])}%nat {ol})")
                     meta.append(("ep", t, data_dt, mask_dt, seed, obs, bool(bad)))
+    # ---- 2c. history independence: (b) the persistent state of the library after ~900 calls in four dtypes must be what it was before them
+    for dif in H.diff_state(state_before, H.snapshot_state()):
+        chk.broken.append({"what": "C18 history independence: persistent state of the library changed during the calls of the configuration table (a module-level "
+                                   "container / function attribute / cache / closure cell / class-level container written by a call can carry a value - and its dtype - "
+                                   "into a later call): " + dif["object"], "detail": dif})
+    chk.notes.append(f"persistent-state snapshot: {len(state_before)} stateful objects of the loaded library fingerprinted before and after the table pass")
+    # (a) the passes run by fresh processes in other dtype orders
+    n_hist = H.judge_passes(chk, hist_passes, parent_obs, T, chk.tier, chk.seed, n_rand) if hist_passes else 0
+    # (c) static: no function of the library writes state that outlives the call (outside the whitelist of state that has been looked at)
+    open_hits, all_hits, n_scanned, stale = H.scan_persistent_state(C.REPO)
+    for h in open_hits:
+        chk.broken.append({"what": "C18 source-level tie: " + h["function"] + " keeps state that outlives the call (" + h["kind"] + " " + h["name"] + ", line " + str(h["line"]) +
+                                   "): a value cached / stored there can reach a later call with data of another dtype; the dtype programs of Model/Dtype.v have no "
+                                   "persistent variables, so the certification of this function and of its callers does not cover call sequences", "detail": h})
+    chk.notes.append(f"persistent-state scan of the source: {n_scanned} functions, {len(all_hits)} state sites, {len(open_hits)} outside the whitelist "
+                     f"(backend selection / dispatch, import-time registration, einsum plugins' contraction-path caches); stale whitelist entries: {stale[:4]}")
+    chk.hist("stream", "persistent-state scan")
     # ---- 3. non-vacuity of the line-search stream
     acc = {dt: linesearch_probe(dt) for dt in ("float32", "float64", "complex128")}
     chk.notes.append(f"parafac(linesearch=True) on near-collinear data, 30 sweeps: accepted line-search jumps per dtype = {acc}")
@@ -2625,6 +2849,49 @@ def run(chk):
                               "offending_statements_for_float32": extract_diagnose(C.REPO, q, "B" if lvl == 2 else "F32")})
         else:
             n_cert += 1
+    # ---- 4a'. history independence at source level (Model/DtypeHist.v): a function whose program refers to PERSISTENT state (module-level containers /
+    # singletons of its module, names declared global / nonlocal) must pass hist_free for G = the variables standing for that state - no read of a
+    # persistent variable before this call has overwritten it, the value side of a cast into a context excepted; every other program has G = [] and
+    # is history independent by C18_stateless_history_independent.  Built-in canaries keep the instrument honest: a dtype-oblivious cache must be
+    # translated with a persistent variable, REJECTED by hist_free and lose its precision-class certificate; the same cache read through a cast
+    # into the context of the data must pass.
+    hcases, hmeta = [], []
+    for q in sorted(ex):
+        r = ex[q]
+        if "error" in r or not r.get("persist"):
+            continue
+        hcases.append(f"(CHist {len(hcases)}%nat {C.nat_list(sorted(r['persist'].values()))} {r['prog']} true)")
+        hmeta.append(("fn", q, r["persist"]))
+    can, can_err = history_canaries()
+    for name, r, expect in can:
+        hcases.append(f"(CHist {len(hcases)}%nat {C.nat_list(sorted(r['persist'].values()))} {r['prog']} {C.boolc(expect)})")
+        hmeta.append(("canary-hist", name, expect))
+        if not expect:
+            hcases.append(f"(CExt {len(hcases)}%nat 2%nat {r['prog']})")
+            hmeta.append(("canary-ext-must-fail", name, None))
+    for e_ in can_err:
+        chk.broken.append({"what": "C18 history-independence instrument self-test: " + e_, "detail": e_})
+    hfailing, h_eval, hbroken = C.run_case_shards("C18", HEADER, "case", hcases, shard=40, tag="hist")
+    chk.checker_cmds.append("coqc (vm_compute) on generated build/cases/C18/hist_*/*.v: Corr.C18.failing on CHist cases (Model.DtypeHist.hist_free)")
+    n_eval += h_eval
+    chk.cov["traces_validated_against_impl"] = n_eval
+    for b in hbroken:
+        chk.broken.append({"what": "correspondence corr:C18 (history freedom of extracted programs) shard not evaluated", "detail": b})
+    for i, m in enumerate(hmeta):
+        chk.count(key=("history-free", m[0], m[1]), nontrivial=True); chk.hist("stream", "history freedom of extracted programs / canaries")
+        if m[0] == "fn" and i in hfailing:
+            chk.disagreement("corr:C18 history independence: the dtype program extracted from the source of " + m[1] + " reads persistent state (" +
+                             ", ".join(sorted(m[2])) + ") before overwriting it (Model/DtypeHist.v hist_free = false): what an earlier call left there - with the "
+                             "dtype of THAT call's data - can reach the results of this call", {"function": m[1], "persistent_names": sorted(m[2])})
+        elif m[0] == "canary-hist" and i in hfailing:
+            chk.broken.append({"what": "C18 history-independence instrument self-test: canary " + m[1] + " was expected to " + ("pass" if m[2] else "be rejected by") +
+                                       " hist_free", "detail": m[1]})
+        elif m[0] == "canary-ext-must-fail" and i not in hfailing:
+            chk.broken.append({"what": "C18 history-independence instrument self-test: the program of the dtype-oblivious cache canary " + m[1] +
+                                       " still passes the precision-class check", "detail": m[1]})
+    n_pers = sum(1 for m in hmeta if m[0] == "fn")
+    chk.notes.append(f"history freedom at source level: {n_pers} of {len(ex)} extracted programs refer to persistent state (checked by hist_free inside Coq), the others have no "
+                     f"persistent variable (history independent by C18_stateless_history_independent); {len(can)} canaries")
     # ---- 4b. 'complex stays complex' at source level: the outputs recorded as EXACT in the baseline must still be certified exact
     xbase = load_extract_baseline("exact")
     ecases, emeta = [], []
@@ -2786,6 +3053,21 @@ def replay(payload):
     rows = table("thorough")
     if inp.get("random_rows"):
         rows = rows + random_rows(random.Random(f"C18-rows-{inp['random_rows'][0]}"), inp["random_rows"][1])
+    if inp.get("sequence"):
+        # a call SEQUENCE (history dependence): this process is fresh; run the calls in the stored order and judge the last one
+        from harness.props import C18_hist as H
+        recs = H.run_sequence(rows, [tuple(x) for x in inp["sequence"]])
+        name, dt, st, obs, err = recs[-1]
+        t = [r for r in rows if r["name"] == name]
+        if st != "ok" or not t:
+            print("replay: sequence", inp["sequence"], "->", st, err)
+            return 1
+        obs = sorted((s_, d_) for s_, d_ in obs)
+        bad = dtype_predicate(t[0], dt, inp.get("mask_dtype"), obs)
+        iso = inp.get("isolated_result")
+        differs = bool(iso) and [list(o) for o in obs] != iso[1]
+        print("replay: call sequence", inp["sequence"], "-> last call", bad or ("differs from the isolated call " + str(iso[1]) if differs else "holds"), "| observed", obs)
+        return 1 if (bad or differs) else 0
     for t in rows:
         if t["name"] == inp["config"]:
             st, obs, info = run_config(t, inp["dtype"], inp.get("seed", 0))
